@@ -34,6 +34,19 @@ SqrtOK(X, ex, R, er, p, inx) ==
           /\ (cl < 0 \/ (cl = 0 /\ (pow10 \/ ~IsOdd(Rp))))
           /\ (ch < 0 \/ (ch = 0 /\ ~IsOdd(Rp)))
 
+\* sub-normal results: sqrt(x) rounded half-even to an integer multiple of 10^etiny (R*10^er with er >= etiny)
+SqrtSubOK(X, ex, R, er, etiny, inx) ==
+  LET Rq == MulPow10(R, er - etiny)                    \* coefficient at the quantum 10^etiny
+      exact == CmpS(Sq(Rq), 2 * etiny, X, ex) = 0
+      lo == IF IsZero(Rq) THEN <<>> ELSE Sub(Add(Rq, Rq), One)
+      hi == Add(Add(Rq, Rq), One)
+      X4 == MulSmall(X, 4)
+      cl == IF IsZero(Rq) THEN -1 ELSE CmpS(Sq(lo), 2 * etiny, X4, ex)
+      ch == CmpS(X4, ex, Sq(hi), 2 * etiny)
+  IN /\ er >= etiny
+     /\ inx = ~exact
+     /\ (exact \/ (/\ (cl < 0 \/ (cl = 0 /\ ~IsOdd(Rq))) /\ (ch < 0 \/ (ch = 0 /\ ~IsOdd(Rq)))))
+
 \* r is within one unit in the last place (of a p-digit result) of cbrt(|x|); exact on perfect cubes
 CbrtOK(X, ex, R, er, p, inx) ==
   LET exact == CmpS(Cube(R), 3 * er, X, ex) = 0
